@@ -2,6 +2,7 @@ import GridVerif.Props.C13.Index
 import GridVerif.Props.C13.Weights
 import GridVerif.Props.C13.Helpers
 import GridVerif.Props.C13.Interp
+import GridVerif.Props.C13.InterpModel
 
 #print axioms GridVerif.C13.coordinates_to_index_eq3
 #print axioms GridVerif.C13.coordinates_to_index_eq2
@@ -33,17 +34,27 @@ import GridVerif.Props.C13.Interp
 #print axioms GridVerif.C13.fourier2_raises_2d
 #print axioms GridVerif.C13.fourier2_dir_sum_two
 #print axioms GridVerif.C13.fourier2_sum_zero_at
+#print axioms GridVerif.C13.fourier2_dir_sum_even
+#print axioms GridVerif.C13.fourier2_sum_zero_even
 #print axioms GridVerif.C13.fourier2_bound_fails_at
 #print axioms GridVerif.C13.weight_schemes_full_false
 #print axioms GridVerif.C13.from_molecule_margin_partial
+#print axioms GridVerif.C13.from_molecule_spec
+#print axioms GridVerif.C13.from_molecule_margin_centred
 #print axioms GridVerif.C13.from_molecule_witness
 #print axioms GridVerif.C13.from_molecule_margin_fails_at
 #print axioms GridVerif.C13.from_molecule_margin_full_false
+#print axioms GridVerif.C13.from_molecule_rotate_witness
+#print axioms GridVerif.C13.from_molecule_rotate_fails_at
 #print axioms GridVerif.C13.closest_point_spec3
 #print axioms GridVerif.C13.closest_point_spec2
-#print axioms GridVerif.C13.closest_point_negative_axis_fails_at
-#print axioms GridVerif.C13.closest_point_outside_fails_at
-#print axioms GridVerif.C13.closest_point_full_false
+#print axioms GridVerif.C13.axis_nearest_clip
+#print axioms GridVerif.C13.closest_point_full_holds
+#print axioms GridVerif.C13.closest_point_origin_spec3
+#print axioms GridVerif.C13.closest_point_repaired_at
 #print axioms GridVerif.C13.nested_interp_exact
 #print axioms GridVerif.C13.tensor_cubic_partial_derivs
 #print axioms GridVerif.C13.log_chain_rule
+#print axioms GridVerif.C13.interp_cubic_eq_nested
+#print axioms GridVerif.C13.interp_cubic_exact
+#print axioms GridVerif.C13.uniform_diag_is_tensor
